@@ -10,7 +10,7 @@ def prop(pid, category, text, note, technique, design_ref):
     P[pid] = dict(category=category, text=text, note=note, technique=technique, design_ref=design_ref)
 
 
-WF = 'positions are Spec.wf (one-ply retro-legal, DESIGN §2.1); '
+WF = 'positions are Spec.wf (one-ply retro-legal, DESIGN §2.1) — a set PROVED closed under legal moves (C02_wf_invariant) and containing the initial position, hence every position of every legal game (C02_reachable_wf); '
 TIE = ('tie to the code = (i) Gen/*.lean re-extracted from the build of the current tree on every run, (ii) sampled correspondence '
        'C++ (ASan+UBSan) / Lean model / Lean rules-spec on spec-generated games; trusted: Lean kernel, axioms propext/Classical.choice/Quot.sound, '
        'translator and drivers, g++/libstdc++ semantics of mirrored operations')
@@ -24,7 +24,7 @@ prop('C01', 'proof',
      'a broken proof or correspondence triggers a spec-vs-implementation hunt for a concrete position',
      WF + TIE, 'Lean 4 theorems over an executable model (generator exact on every well-formed position: C01_Statement proved) + spec-generated differential correspondence', '§12.4 C01')
 prop('C02', 'proof',
-     'REFINEMENT PROVED in Lean (Props/C02.lean: C02_full, C02_replay_legal): for every model position whose six FEN fields satisfy Spec.wf and EVERY move legal under the rules '
+     'REFINEMENT PROVED in Lean (Props/C02.lean: C02_full, C02_replay_legal, C02_game; the quantifier Spec.wf is an invariant of legal play: C02_wf_invariant, and every position of every legal game from the initial position is in it: C02_reachable_wf — so C02_game needs well-formedness of the FIRST position only): for every model position whose six FEN fields satisfy Spec.wf and EVERY move legal under the rules '
      '(Spec.legalMoves), for every Zobrist table, absPos(do_move(code of m)) = Spec.apply m on all six FEN fields, and the same for legal sequences of any length; the move-shape hypothesis is '
      'derived from wf + legality by analysing the rules\' own generator (Lemmas/LegalShape.lean). Tie: differential on all six FEN fields after every do/undo/null, consistency of the three '
      'redundant C++ placements at every step, and sessions over the real UCI command loop (position…moves / moves / printboard) judged by the rules spec',
